@@ -426,6 +426,42 @@ def plan_bcmatrix(index, dims=(1, 2, 3)):
         ops.append({"k": "apply", "a": {"v": "vA"}})
         ops.append({"k": "solve", "a": {"v": "vA", "terms": [{"t": "tT"}, {"t": "tD", "neg": True}],
                                         "solver": None}})
+    if rng.random() < 0.5:
+        # a second mesh of the same class, cell counts and extents, other interior
+        # spacing, configured the same way: its ghost values follow *its* geometry
+        m1 = ops[0]["a"]
+        if m1["form"] == "faces":
+            base = [list(f) for f in m1["faces"]]
+        else:
+            base = [[round(i * float(L) / int(n), 6) for i in range(int(n) + 1)]
+                    for n, L in zip(m1["N"], m1["L"])]
+        faces2 = []
+        for f in base:
+            n = len(f) - 1
+            if n < 2:
+                faces2.append(f)
+                continue
+            w = [rng.uniform(0.5, 1.5) for _ in range(n)]
+            tot = sum(w)
+            acc = f[0]
+            g2 = [f[0]]
+            for x in w[:-1]:
+                acc += (f[-1] - f[0]) * x / tot
+                g2.append(round(acc, 6))
+            g2.append(f[-1])
+            faces2.append(g2)
+        ops.append({"k": "mesh", "out": "m2", "a": {"cls": cls, "form": "faces", "faces": faces2,
+                                                    "regraded_from": "m1"}})
+        ops.append({"k": "bc", "out": "b2", "a": {"m": "m2"}})
+        for o in cfg:
+            o2 = {"k": o["k"], "a": dict(o["a"], b="b2")}
+            ops.append(o2)
+        ops.append({"k": "var", "out": "vA2", "a": {"m": "m2", "val": _vdesc(rng), "bc": "b2"}})
+        ops.append({"k": "build", "out": "tD2", "a": {"fn": "diffusionTerm", "args": ["fD2"]}})
+        ops.insert(len(ops) - 1, {"k": "face", "out": "fD2", "a": {"m": "m2", "scalar": 1.0}})
+        ops.append({"k": "build", "out": "tT2", "a": {"fn": "transientTerm", "args": ["vA2", 0.5, 1.0]}})
+        ops.append({"k": "solve", "a": {"v": "vA2", "terms": [{"t": "tT2"}, {"t": "tD2", "neg": True}],
+                                        "solver": None}})
     label = "%s:%s:%s" % (cls, "".join(p[0] for p in pats), "".join(kinds))
     return ops, label
 
